@@ -147,10 +147,35 @@ static std::string runService(const std::string& kind, std::uint64_t seed, long 
     lg.add("S:" + L((long long)id) + ":" + L(a) + ":" + L(b) + ":5000000:O");
     std::this_thread::sleep_for(milliseconds(40));
   }
+  else if (kind == "wakeup")
+  {
+    // the wake-up plumbing with the REAL epoll/timerfd/eventfd and nobody poking: timer B comes due while the loop thread is busy with
+    // the slow handler of timer A, so the top of the loop programs the timerfd with the heap top already due (zero guard: 1 ns).
+    // With the timerfd disarmed instead, nothing ever wakes the loop: B never fires (monitor RT6)
+    long aMs = 10 + (long)(seed % 20), slowMs = 30 + (long)(seed % 40), bMs = aMs + 5 + (long)(seed % 20);
+    for (auto [dMs, slowUs] : {std::pair<long, long>{aMs, slowMs * 1000}, std::pair<long, long>{bMs, 0L}})
+    {
+      auto idp = std::make_shared<std::atomic<std::uint64_t>>(0);
+      long long a = lg.now();
+      std::uint64_t id = svc->scheduleAfter(milliseconds(dMs), mkHandler(&lg, idp, slowUs));
+      long long b = lg.now();
+      idp->store(id ? id : ~0ULL, std::memory_order_release);
+      lg.add("S:" + L((long long)id) + ":" + L(a) + ":" + L(b) + ":" + L(dMs * 1000000LL) + ":O");
+    }
+    std::this_thread::sleep_for(milliseconds(ms));
+  }
   else
   {
     for (int i = 0; i < 3; ++i) th.emplace_back(client, seed * 31 + i);
     std::this_thread::sleep_for(milliseconds(ms));
+    if (kind == "svc")
+    {
+      // a quiet tail: the clients stop (no more pokes), the loop thread has only its timerfd to wake it for what is still scheduled
+      stopClients.store(true);
+      for (auto& t : th) t.join();
+      th.clear();
+      std::this_thread::sleep_for(milliseconds(160));
+    }
   }
   if (kind == "svcdrain")
   {
